@@ -428,6 +428,14 @@ void reset_captured_stderr() {
     if (stderr_capture_fd >= 0) { if (ftruncate(stderr_capture_fd, 0) != 0) {} }
 }
 
+// coverage builds (gcc --coverage, tools/coverage.sh): counters are written at exit(), which workers never reach
+#ifdef SIM_COVERAGE
+extern "C" void __gcov_dump(void);
+void flush_coverage() { __gcov_dump(); }
+#else
+void flush_coverage() {}
+#endif
+
 [[noreturn]] void die(int endkind, const std::string &detail) {
     g.active = false;
     alloc_armed = false;
@@ -440,6 +448,7 @@ void reset_captured_stderr() {
             off += (size_t)w;
         }
     }
+    flush_coverage();
     _exit(0);
 }
 
